@@ -908,6 +908,22 @@ pub fn encode(d: &Desc, v: &Value, n: usize, o: &EncOpts, rng: &mut Rng) -> Resu
     Ok(buf)
 }
 
+/// Can every non-last item of every FlexVec inside `v` be sealed, i.e. is its offset (slot + padded extent)
+/// representable in the offset type and different from the `L::MAX` marker?  (Values that cannot are only produced
+/// on purpose: their construction must be refused.)
+pub fn sealable(d: &Desc, v: &Value) -> bool {
+    match (d, v) {
+        (Desc::Flex { item, len }, Value::Seq(items)) => {
+            let (slot, al) = (d.flex_slot(), d.align());
+            let last = items.len().saturating_sub(1);
+            items.iter().enumerate().all(|(i, it)| sealable(item, it) && (i == last || ((slot + ceil_to(extent_of(item, it), al)) as u128) < len.max()))
+        }
+        (Desc::Struct { fields, .. }, _) => fields.iter().zip(v.fields()).all(|(f, x)| sealable(f, x)),
+        (Desc::Enum { variants, .. }, Value::Var(i, f)) => variants[*i].iter().zip(f.iter()).all(|(d, x)| sealable(d, x)),
+        _ => true,
+    }
+}
+
 /// Extent (reference for `size()`) of `v` encoded canonically: smallest n that holds it.
 pub fn extent_of(d: &Desc, v: &Value) -> usize {
     if d.is_sized() {
